@@ -32,7 +32,12 @@ fn pool() -> Vec<(&'static str, bool)> {
     alpha::R_NET.iter().map(|r| (*r, false)).chain(alpha::R_HOSTS.iter().map(|r| (*r, true))).collect()
 }
 
-const COSMETIC_RULES: &[&str] = &["x.com##.ad", "##.generic", "x.com##+js(s1, v)", "x.com#@#.generic", "@@||gh.com^$generichide", "ads.net##.banner:style(top:0)"];
+// (the last two generichide exceptions are filed under the hash of an initiator domain, not under a
+// token of the page URL)
+const COSMETIC_RULES: &[&str] = &[
+    "x.com##.ad", "##.generic", "x.com##+js(s1, v)", "x.com#@#.generic", "@@||gh.com^$generichide", "ads.net##.banner:style(top:0)",
+    "@@*$generichide,domain=gd.com|gd2.com", "@@/article/*$generichide,domain=news.com",
+];
 
 fn list_answers(idx: u64, reqs: &[alpha::Req], full: bool) -> (u64, Vec<String>) {
     let pool = pool();
@@ -68,7 +73,7 @@ fn list_answers(idx: u64, reqs: &[alpha::Req], full: bool) -> (u64, Vec<String>)
         let r = e.check_network_request(&rq.req);
         feed(format!("after-discard {} {} {} -> {:?}", rq.url, rq.source, rq.ty, Verdict::of(&r)));
     }
-    for u in ["https://x.com/", "https://gh.com/", "https://ads.net/a"] {
+    for u in ["https://x.com/", "https://gh.com/", "https://ads.net/a", "https://gd.com/", "https://sub.gd2.com/p", "https://news.com/article/1", "https://news.com/other"] {
         let r = e.url_cosmetic_resources(u);
         let hs: BTreeSet<_> = r.hide_selectors.iter().cloned().collect();
         let pa: BTreeSet<_> = r.procedural_actions.iter().cloned().collect();
